@@ -7,6 +7,7 @@ use crate::engine::sched::*;
 use crate::engine::store::{GatedStore, StoreLog};
 use async_trait::async_trait;
 use cardinalsin::compactor::{Compactor, CompactorConfig};
+use cardinalsin::ingester::ChunkMetadata;
 use cardinalsin::metadata::{LocalMetadataClient, MetadataClient};
 use cardinalsin::sharding::{HotShardConfig, ShardMonitor};
 use cardinalsin::StorageConfig;
@@ -510,6 +511,9 @@ pub fn run(tier: &str) -> i32 {
     let d = rep.get_u64("distinct_outcomes");
     rep.set("distinct_nontrivial", d);
     rep.set("vacuity", json!({"observed": seen}));
+    if scenario_selected("mixed-schemas") {
+        schema_space(&mut rep, tier);
+    }
     for need in ["object-store:compaction_completed", "in-memory:compaction_completed", "object-store:gc_deleted_sources", "in-memory:gc_deleted_sources"] {
         if !seen.contains(need) {
             rep.machinery(format!("vacuity guard: no execution showed `{need}` (no compaction ever completed)"));
@@ -519,6 +523,270 @@ pub fn run(tier: &str) -> i32 {
 }
 
 pub fn replay(v: &serde_json::Value) -> i32 {
+    if v["kind"] == "schema-case" {
+        let c: SchemaCase = serde_json::from_value(v["case"].clone()).expect("case");
+        return match run_schema_case_blocking(&c) {
+            Ok((merged, failed)) => {
+                println!("case {c:?}: rows conserved (merged={merged}, a cycle refused or failed={failed}); no violation");
+                0
+            }
+            Err((sig, msg)) => {
+                println!("violation [{sig}]: {msg}");
+                1
+            }
+        };
+    }
     let p: Params = serde_json::from_value(v["params"].clone()).expect("params");
     super::replay_schedule(factory(p), v)
+}
+
+// ---------------------------------------------------------------------------------------------------------------------
+// C03 (b): datasets whose chunks do not share one schema (different label sets, column orders, timestamp types).
+// The ingester starts a new chunk whenever the schema of the incoming batch differs, so such chunks sit side by side
+// in one hour. Sequential, fault-free (engine B): every multiset of 2..3 chunk shapes x both back ends x L0 / L1
+// merge, two real compaction cycles; the oracle compares whole rows (every non-null column value), not only row ids.
+// ---------------------------------------------------------------------------------------------------------------------
+
+#[derive(Debug, Clone, serde::Serialize, serde::Deserialize)]
+pub struct SchemaCase {
+    pub backend: String,
+    /// one entry per chunk: index into `shapes()`
+    pub chunks: Vec<usize>,
+    /// the chunks sit on level 1 (merged by the level pass) instead of level 0
+    pub level1: bool,
+}
+
+/// (label columns in schema order, timestamp column is Timestamp(ns, UTC) rather than Int64)
+fn shapes() -> Vec<(Vec<&'static str>, bool)> {
+    vec![
+        (vec!["host"], true),
+        (vec!["region"], true),
+        (vec!["host", "region"], true),
+        (vec!["region", "host"], true),
+        (vec![], true),
+        (vec!["host"], false),
+    ]
+}
+
+fn shape_batch(shape: usize, chunk_no: usize, base_ts: i64) -> arrow_array::RecordBatch {
+    use arrow_array::{Array, Float64Array, Int64Array, StringArray, TimestampNanosecondArray};
+    use arrow_schema::{DataType, Field, Schema, TimeUnit};
+    let (labels, ts_type) = shapes()[shape].clone();
+    let n = 2usize;
+    let ids: Vec<i64> = (0..n).map(|k| (chunk_no * 10 + k + 1) as i64).collect();
+    let ts: Vec<i64> = (0..n).map(|k| base_ts + (chunk_no as i64) * 1_000_000 + k as i64).collect();
+    let mut fields = vec![
+        if ts_type { Field::new("timestamp", DataType::Timestamp(TimeUnit::Nanosecond, Some("UTC".into())), false) } else { Field::new("timestamp", DataType::Int64, false) },
+        Field::new("metric_name", DataType::Utf8, false),
+        Field::new("value_f64", DataType::Float64, true),
+        Field::new("id", DataType::Int64, false),
+    ];
+    let mut cols: Vec<Arc<dyn Array>> = vec![
+        if ts_type { Arc::new(TimestampNanosecondArray::from(ts).with_timezone("UTC")) } else { Arc::new(Int64Array::from(ts)) },
+        Arc::new(StringArray::from(vec!["cpu"; n])),
+        Arc::new(Float64Array::from(ids.iter().map(|i| *i as f64).collect::<Vec<_>>())),
+        Arc::new(Int64Array::from(ids.clone())),
+    ];
+    for l in labels {
+        fields.push(Field::new(l, DataType::Utf8, true));
+        // the second row of a chunk has no value for its last label
+        cols.push(Arc::new(StringArray::from(ids.iter().enumerate().map(|(k, i)| if k == 1 && fields.len() % 2 == 0 { None } else { Some(format!("{l}-of-{i}")) }).collect::<Vec<_>>())));
+    }
+    arrow_array::RecordBatch::try_new(Arc::new(Schema::new(fields)), cols).expect("shape batch")
+}
+
+/// every row of a Parquet object as "col=value" pairs of its non-null columns (timestamps as integer nanoseconds)
+fn whole_rows(data: bytes::Bytes) -> Result<Vec<String>, String> {
+    use arrow_array::cast::AsArray;
+    let reader = parquet::arrow::arrow_reader::ParquetRecordBatchReaderBuilder::try_new(data).map_err(|e| e.to_string())?.build().map_err(|e| e.to_string())?;
+    let mut out = Vec::new();
+    for b in reader {
+        let b = b.map_err(|e| e.to_string())?;
+        let schema = b.schema();
+        for r in 0..b.num_rows() {
+            let mut kv: Vec<String> = Vec::new();
+            for (c, f) in schema.fields().iter().enumerate() {
+                let a = b.column(c);
+                if a.is_null(r) {
+                    continue;
+                }
+                let v = match f.data_type() {
+                    arrow_schema::DataType::Timestamp(arrow_schema::TimeUnit::Nanosecond, _) => a.as_primitive::<arrow_array::types::TimestampNanosecondType>().value(r).to_string(),
+                    _ => arrow::util::display::array_value_to_string(a, r).map_err(|e| e.to_string())?,
+                };
+                kv.push(format!("{}={}", f.name(), v));
+            }
+            kv.sort();
+            out.push(kv.join(","));
+        }
+    }
+    Ok(out)
+}
+
+async fn whole_rows_of_catalog(mem: &Arc<dyn ObjectStore>, meta: &dyn MetadataClient) -> Result<Vec<String>, String> {
+    let mut all = Vec::new();
+    for c in meta.list_chunks().await.map_err(|e| e.to_string())? {
+        let data = mem.get(&object_store::path::Path::from(c.chunk_path.as_str())).await.map_err(|e| format!("{}: {e}", c.chunk_path))?.bytes().await.map_err(|e| e.to_string())?;
+        all.extend(whole_rows(data)?);
+    }
+    all.sort();
+    Ok(all)
+}
+
+async fn run_schema_case(c: &SchemaCase) -> Result<(bool, bool), (String, String)> {
+    let mem = new_mem();
+    let local = Arc::new(LocalMetadataClient::new());
+    let meta: Arc<dyn MetadataClient> = if c.backend == "object-store" { Arc::new(os_client(mem.clone())) } else { local.clone() };
+    let base_ts = hour_bucket(crate::engine::env::EPOCH_NS) - HOUR + 60_000_000_000;
+    for (i, s) in c.chunks.iter().enumerate() {
+        let b = shape_batch(*s, i, base_ts);
+        let bytes = encode_parquet(&b);
+        let p = format!("t/data/s{i}.parquet");
+        let m = ChunkMetadata { path: p.clone(), min_timestamp: base_ts + (i as i64) * 1_000_000, max_timestamp: base_ts + (i as i64) * 1_000_000 + 1, row_count: 2, size_bytes: bytes.len() as u64 };
+        mem.put(&object_store::path::Path::from(p.as_str()), bytes.into()).await.expect("put");
+        meta.register_chunk(&p, &m).await.expect("register");
+        if c.level1 {
+            promote_to_level(meta.as_ref(), &p, 1).await;
+        }
+    }
+    let before = whole_rows_of_catalog(&mem, meta.as_ref()).await.map_err(|e| ("C03:machinery:decode".to_string(), e))?;
+    let cfg = CompactorConfig {
+        l0_merge_threshold: c.chunks.len(),
+        l0_target_size: 1,
+        l1_target_size: 1,
+        l2_target_size: 1,
+        max_levels: 3,
+        retention_days: 90,
+        gc_grace_period: Duration::from_secs(300),
+        sharding_enabled: false,
+        ..CompactorConfig::default()
+    };
+    let compactor = Arc::new(Compactor::new(cfg, mem.clone(), meta.clone(), storage_config(), Arc::new(ShardMonitor::new(HotShardConfig::default()))));
+    let mut merged = false;
+    let mut failed = false;
+    for cycle in 0..2 {
+        let c2 = compactor.clone();
+        // a panic inside the cycle must not take the harness down: run it as a task
+        match tokio::spawn(async move { c2.run_compaction_cycle().await }).await {
+            Ok(Ok(())) => {}
+            Ok(Err(_)) => failed = true,
+            Err(_) => failed = true,
+        }
+        let after = whole_rows_of_catalog(&mem, meta.as_ref()).await.map_err(|e| ("C03:listed-chunk-unreadable".to_string(), format!("cycle {cycle}: {e}")))?;
+        if meta.list_chunks().await.map(|l| l.iter().any(|e| e.chunk_path.contains("/compacted/"))).unwrap_or(false) {
+            merged = true;
+        }
+        if after != before {
+            let lost: Vec<&String> = before.iter().filter(|r| !after.contains(r)).collect();
+            let new: Vec<&String> = after.iter().filter(|r| !before.contains(r)).collect();
+            let kind = if after.len() != before.len() { "row-count-changed" } else { "row-content-changed" };
+            return Err((format!("C03:mixed-schemas:{kind}"), format!("cycle {cycle}: rows no longer reachable {lost:?}; rows that were not there before {new:?}")));
+        }
+    }
+    Ok((merged, failed))
+}
+
+pub fn schema_cases(tier: &str) -> Vec<SchemaCase> {
+    let n = shapes().len();
+    let mut v = Vec::new();
+    for backend in ["in-memory", "object-store"] {
+        for level1 in [false, true] {
+            for a in 0..n {
+                for b in 0..n {
+                    v.push(SchemaCase { backend: backend.into(), chunks: vec![a, b], level1 });
+                    if tier == "thorough" || (backend == "in-memory" && !level1) {
+                        for c in 0..n {
+                            v.push(SchemaCase { backend: backend.into(), chunks: vec![a, b, c], level1 });
+                        }
+                    }
+                }
+            }
+        }
+    }
+    v
+}
+
+fn run_schema_case_blocking(c: &SchemaCase) -> Result<(bool, bool), (String, String)> {
+    let c = c.clone();
+    std::thread::spawn(move || {
+        let e = crate::engine::env::EnvState::new();
+        crate::engine::env::install(&e);
+        let rt = tokio::runtime::Builder::new_current_thread().enable_all().start_paused(true).build().unwrap();
+        let r = rt.block_on(run_schema_case(&c));
+        drop(rt);
+        crate::engine::env::uninstall();
+        r
+    })
+    .join()
+    .unwrap_or_else(|_| Err(("C03:machinery:case-panicked".into(), "the case panicked outside the compaction task".into())))
+}
+
+fn schema_space(rep: &mut Report, tier: &str) {
+    let cs = schema_cases(tier);
+    let next = std::sync::atomic::AtomicUsize::new(0);
+    let res: Mutex<Vec<(usize, Result<(bool, bool), (String, String)>)>> = Mutex::new(Vec::new());
+    let t0 = std::time::Instant::now();
+    // panics inside compaction tasks are expected outcomes here: keep their messages out of the output
+    let hook = std::panic::take_hook();
+    std::panic::set_hook(Box::new(|_| {}));
+    std::thread::scope(|s| {
+        for _ in 0..default_workers() {
+            s.spawn(|| loop {
+                let i = next.fetch_add(1, std::sync::atomic::Ordering::SeqCst);
+                if i >= cs.len() {
+                    return;
+                }
+                let r = run_schema_case_blocking(&cs[i]);
+                res.lock().unwrap().push((i, r));
+            });
+        }
+    });
+    std::panic::set_hook(hook);
+    let mut res = res.into_inner().unwrap();
+    res.sort_by_key(|x| x.0);
+    let (mut merged, mut failed, mut mixed_merged) = (0u64, 0u64, 0u64);
+    let mut viol: BTreeMap<String, (String, SchemaCase, u64)> = BTreeMap::new();
+    for (i, r) in res {
+        let c = &cs[i];
+        if std::env::var("VERIF_C03_VERBOSE").is_ok() {
+            println!("    {:?} -> {:?}", c, r.as_ref().map_err(|e| &e.0));
+        }
+        match r {
+            Ok((m, f)) => {
+                merged += m as u64;
+                failed += f as u64;
+                if m && c.chunks.iter().any(|s| *s != c.chunks[0]) {
+                    mixed_merged += 1;
+                }
+            }
+            Err((sig, msg)) => {
+                let e = viol.entry(sig).or_insert((msg, c.clone(), 0));
+                e.2 += 1;
+            }
+        }
+    }
+    println!(
+        "  C03 (b) mixed-schema datasets: cases={} merged={} (of differing shapes: {}) cycle-refused-or-failed={} violation-sigs={} {:.1}s",
+        cs.len(),
+        merged,
+        mixed_merged,
+        failed,
+        viol.len(),
+        t0.elapsed().as_secs_f64()
+    );
+    rep.add_u64("executions", cs.len() as u64);
+    rep.add_u64("evaluations", cs.len() as u64);
+    rep.set("mixed_schema_cases", json!({"cases": cs.len(), "merged": merged, "merged_with_differing_shapes": mixed_merged, "cycle_refused_or_failed": failed,
+        "rule": "every sequence of 2 (quick: also 3 on the in-memory back end at L0; thorough: 3 everywhere) chunk shapes out of 6 (label columns [host] / [region] / [host,region] / [region,host] / none, timestamp as Timestamp(ns) or Int64) in one hour x both back ends x L0 / L1; two real compaction cycles; whole-row multiset (every non-null column value) before vs after"}));
+    rep.push_sample(json!({"mixed_schema_case": cs.get(cs.len() / 3)}));
+    if merged == 0 {
+        rep.machinery("vacuity guard: no mixed-schema case performed a merge");
+    }
+    for (sig, (msg, c, n)) in viol {
+        if sig.contains("machinery") {
+            rep.machinery(format!("{sig}: {msg}"));
+        } else {
+            rep.violation_n(&sig, &format!("{c:?} (shapes {:?}): {msg}", c.chunks.iter().map(|s| shapes()[*s].clone()).collect::<Vec<_>>()), json!({"kind": "schema-case", "case": c}), n);
+        }
+    }
 }
